@@ -501,6 +501,89 @@ theorem detect_cfg_good (p : Proto) (a : Auth) (cfg : Cfg) (hmk : detectCfg p a 
       simp only at hub
       exact GoodCfg.s4 _ _ _ _ (by simp [socks4Start, hub, hh, packH]; rfl)
 
+/-! ## `_connect` -/
+
+def excsOf : List AddrOutcome → List (PyExc × Nat)
+  | [] => []
+  | .exc e r :: as => (e, r) :: excsOf as
+  | _ :: as => excsOf as
+
+theorem connectLoop_pre : ∀ (pre tail : List AddrOutcome) (i : Nat) (acc : List (PyExc × Nat)),
+    (∀ o ∈ pre, ∃ e r, o = AddrOutcome.exc e r) →
+    connectLoop (pre ++ tail) i acc = connectLoop tail (i + pre.length) (acc ++ excsOf pre)
+  | [], tail, i, acc, _ => by simp [excsOf]
+  | o :: pre, tail, i, acc, h => by
+    obtain ⟨e, r, rfl⟩ := h o (by simp)
+    have ih := connectLoop_pre pre tail (i + 1) (acc ++ [(e, r)]) (fun o ho => h o (by simp [ho]))
+    simp only [List.cons_append, connectLoop, excsOf, List.length_cons]
+    rw [ih]
+    congr 1
+    · omega
+    · simp
+
+theorem excsOf_all_exc : ∀ (l : List AddrOutcome), (∀ o ∈ l, ∃ e r, o = AddrOutcome.exc e r) →
+    ∀ e r, (e, r) ∈ excsOf l ↔ AddrOutcome.exc e r ∈ l
+  | [], _, e, r => by simp [excsOf]
+  | o :: l, h, e, r => by
+    obtain ⟨e', r', rfl⟩ := h o (by simp)
+    have ih := excsOf_all_exc l (fun o ho => h o (by simp [ho])) e r
+    simp only [excsOf, List.mem_cons, Prod.mk.injEq, AddrOutcome.exc.injEq, ih]
+
+/-- **`_connect`.**  (1) The first address whose `_connect_one` yields a socket wins (every
+    earlier address having returned an exception); (2) an exception escaping `_connect_one`
+    propagates at once; (3) when every address returned an exception and all their reprs
+    coincide, the first of them is raised; (4) when the reprs differ, an `OSError`;
+    (5) `assert remote_addresses`. -/
+theorem connect_spec :
+    (∀ pre u post, (∀ o ∈ pre, ∃ e r, o = AddrOutcome.exc e r) →
+      connect (pre ++ .sock u :: post) = .connected pre.length u) ∧
+    (∀ pre e post, (∀ o ∈ pre, ∃ e' r, o = AddrOutcome.exc e' r) →
+      connect (pre ++ .escaped e :: post) = .raised e) ∧
+    (∀ e r rest, (∀ o ∈ rest, ∃ e', o = AddrOutcome.exc e' r) →
+      connect (.exc e r :: rest) = .raised e) ∧
+    (∀ e r rest, (∀ o ∈ rest, ∃ e' r', o = AddrOutcome.exc e' r') →
+      (∃ e' r', AddrOutcome.exc e' r' ∈ rest ∧ r' ≠ r) →
+      connect (.exc e r :: rest) = .raised .osError) ∧
+    connect [] = .raised .assertionError := by
+  refine ⟨?_, ?_, ?_, ?_, rfl⟩
+  · intro pre u post h
+    simp [connect, connectLoop_pre pre _ 0 [] h, connectLoop]
+  · intro pre e post h
+    simp [connect, connectLoop_pre pre _ 0 [] h, connectLoop]
+  · intro e r rest h
+    have hall : ∀ o ∈ rest, ∃ e' r', o = AddrOutcome.exc e' r' :=
+      fun o ho => let ⟨e', he⟩ := h o ho; ⟨e', r, he⟩
+    have := connectLoop_pre (.exc e r :: rest) [] 0 []
+      (by intro o ho; simp at ho; rcases ho with rfl | ho; exact ⟨e, r, rfl⟩; exact hall o ho)
+    simp only [List.append_nil, List.nil_append, excsOf] at this
+    show connectLoop (.exc e r :: rest) 0 [] = _
+    rw [this]
+    have hr : (excsOf rest).all (fun x => x.2 == r) = true := by
+      rw [List.all_eq_true]
+      intro x hx
+      obtain ⟨e', r'⟩ := x
+      have := (excsOf_all_exc rest hall e' r').1 hx
+      obtain ⟨e'', he⟩ := h _ this
+      simp at he
+      simp [he.2]
+    simp [connectLoop, hr]
+  · intro e r rest hall hdiff
+    have := connectLoop_pre (.exc e r :: rest) [] 0 []
+      (by intro o ho; simp at ho; rcases ho with rfl | ho; exact ⟨e, r, rfl⟩; exact hall o ho)
+    simp only [List.append_nil, List.nil_append, excsOf] at this
+    show connectLoop (.exc e r :: rest) 0 [] = _
+    rw [this]
+    have hr : (excsOf rest).all (fun x => x.2 == r) = false := by
+      obtain ⟨e', r', hm, hne⟩ := hdiff
+      have := (excsOf_all_exc rest hall e' r').2 hm
+      rw [List.all_eq_false]
+      exact ⟨(e', r'), this, by simp [hne]⟩
+    simp [connectLoop, hr]
+
+example : connect [.exc .osError 1, .sock [7]] = .connected 1 [7] := by decide
+example : connect [.exc .socksFailure 1, .exc .socksFailure 1] = .raised .socksFailure := by decide
+example : connect [.exc .socksFailure 1, .exc .osError 2] = .raised .osError := by decide
+
 /-! ## non-vacuity: concrete reply streams of each kind -/
 
 example : verdictFor cfg5n [5, 0, 5, 0, 0, 3, 2, 104, 105, 0, 80, 0x16, 0x03] = .granted 11 := by
